@@ -44,11 +44,13 @@ func init() {
 	})
 	gen.RegisterOp("c12", "checks", func(c *gen.Ctx, raw json.RawMessage) any {
 		in := gen.Into[c12ChecksIn](raw)
-		return c12Serve(c, in.Reqs, in.Stderr)
+		return c12Serve(c, in.Reqs, in.Stderr, in.Traced)
 	})
 	gen.RegisterOp("c12", "matrix", func(c *gen.Ctx, raw json.RawMessage) any {
 		in := gen.Into[c12MatrixIn](raw)
-		return c12Serve(c, []c12Req{c12Render(in)}, false)
+		r := c12Render(in)
+		r.Body = in.Body
+		return c12Serve(c, []c12Req{r}, false, in.Traced)
 	})
 	gen.RegisterOp("c12", "render", func(c *gen.Ctx, raw json.RawMessage) any {
 		return c12Render(gen.Into[c12MatrixIn](raw))
@@ -195,11 +197,15 @@ type c12Req struct {
 	CN        string      `json:"cn"`
 	Trailers  int         `json:"trailers"`
 	BodyEmpty bool        `json:"bodyEmpty"`
+	// Body: 0 - as BodyEmpty says: no body at all (http.NoBody) / one byte; 3 - a body that is
+	// there but empty (a reader at its end, not http.NoBody); BodyEmpty must be true then
+	Body int `json:"body,omitempty"`
 }
 
 type c12ChecksIn struct {
 	Reqs   []c12Req `json:"reqs"`
 	Stderr bool     `json:"stderr,omitempty"`
+	Traced bool     `json:"traced,omitempty"` // tracer.TracingHandler around the checks, as createServer installs it with a tracer
 }
 
 type c12MatrixIn struct {
@@ -207,6 +213,10 @@ type c12MatrixIn struct {
 	A    [7]int `json:"a"`
 	V    [3]int `json:"v"`
 	Name string `json:"name"`
+	// Traced: as in c12ChecksIn. Body: as in c12Req (3: the GET request carries an empty body
+	// that is not http.NoBody)
+	Traced bool `json:"traced,omitempty"`
+	Body   int  `json:"body,omitempty"`
 }
 
 type c12Obs struct {
@@ -310,6 +320,8 @@ func c12Build(r c12Req) *http.Request {
 	var body io.Reader
 	if !r.BodyEmpty {
 		body = strings.NewReader("x")
+	} else if r.Body == 3 {
+		body = strings.NewReader("")
 	}
 	req := httptest.NewRequest(http.MethodPost, target, body)
 	req.Method = r.Method
@@ -342,11 +354,15 @@ func c12Name(r c12Req) string {
 	return ""
 }
 
-func c12Serve(c *gen.Ctx, reqs []c12Req, stderr bool) []c12Obs {
-	srv := rs.VerifC12NewServer()
+func c12Serve(c *gen.Ctx, reqs []c12Req, stderr, traced bool) []c12Obs {
+	srv := rs.VerifC12NewServerOpts(stderr, traced)
+	if traced {
+		c.E.Count("handler:traced")
+	} else {
+		c.E.Count("handler:untraced")
+	}
 	var batch []string
 	if stderr {
-		srv = rs.VerifC12NewServerStderr()
 		var names []string
 		for _, r := range reqs {
 			names = append(names, c12Name(r))
@@ -362,6 +378,19 @@ func c12Serve(c *gen.Ctx, reqs []c12Req, stderr bool) []c12Obs {
 		if stderr {
 			o.Lines, obs.Lines = c12ReadStderr(batch, o.Stderr)
 			c.E.Add("stderr-lines-read-by-the-real-runner", len(obs.Lines))
+			if name := c12Name(r); !c12Attributable(name) {
+				// a name the runner's "name: message" reading cannot carry: only what the SERVER does is
+				// judged - every line it writes starts with the name and ": "
+				o.Lines = nil
+				for _, raw := range obs.Lines {
+					if msg, ok := strings.CutPrefix(raw[0], name+": "); ok && name != "" {
+						o.Lines = append(o.Lines, rs.VerifC12Line{Prefixed: true, Prefix: name, Msg: msg})
+					} else {
+						o.Lines = append(o.Lines, rs.VerifC12Line{Msg: raw[0]})
+					}
+				}
+				c.E.Count("checks:name-the-runner-cannot-carry")
+			}
 		}
 		obs.Fb, obs.Named = c12Classes(c, o.Lines, c12Name(r))
 		if o.TimeoutMs != nil {
@@ -651,6 +680,23 @@ func runC12(c *gen.Ctx) error {
 		c.E.Count("kind:timeout-random")
 	}
 
+	// matrix and checks ops are independent of each other: run them on 8 workers, in batches (the
+	// lines are emitted in the order they were generated)
+	var parOps []string
+	var parIns []any
+	flush := func() {
+		if len(parIns) > 0 {
+			c.DoParallelOps(parOps, parIns, 8)
+			parOps, parIns = nil, nil
+		}
+	}
+	par := func(op string, in any) {
+		parOps, parIns = append(parOps, op), append(parIns, in)
+		if len(parIns) >= 20000 {
+			flush()
+		}
+	}
+
 	// ---------------- expectation-header checks
 	// (i.a) the renderer itself: every expected tuple, every actual tuple x variant
 	for i := 0; i < 864; i++ {
@@ -672,7 +718,13 @@ func runC12(c *gen.Ctx) error {
 			}
 			v := (ei*13 + ai*7 + int(c.Seed)) % 8
 			in := c12MatrixIn{E: c12Tuple(ei), A: c12Tuple(ai), V: [3]int{v & 1, (v >> 1) & 1, (v >> 2) & 1}, Name: "Suite/case-" + strconv.Itoa(ei%7)}
-			c.Do("matrix", in)
+			// both configurations of the chain (with and without the tracing handler around the
+			// checks), alternating; a GET with an empty body that is not http.NoBody now and then
+			in.Traced = (ei+ai/3+int(c.Seed))%2 == 0
+			if in.A[1] == 1 && (ei+ai)%3 == 0 {
+				in.Body = 3
+			}
+			par("matrix", in)
 			if c12Realisable(in.A) {
 				c.E.Count("kind:matrix-realisable")
 			} else {
@@ -684,12 +736,19 @@ func runC12(c *gen.Ctx) error {
 		a := c12Tuple(ai)
 		for v := 0; v < 8; v++ {
 			vv := [3]int{v & 1, (v >> 1) & 1, (v >> 2) & 1}
-			c.Do("matrix", c12MatrixIn{E: a, A: a, V: vv, Name: "Suite/same"})
+			// the diagonal in both configurations of the chain; a GET also with an empty body that
+			// is not http.NoBody
+			par("matrix", c12MatrixIn{E: a, A: a, V: vv, Name: "Suite/same"})
+			par("matrix", c12MatrixIn{E: a, A: a, V: vv, Name: "Suite/same", Traced: true})
+			c.E.Count("kind:matrix-diagonal-traced")
+			if a[1] == 1 {
+				par("matrix", c12MatrixIn{E: a, A: a, V: vv, Name: "Suite/same", Traced: v%2 == 0, Body: 3})
+			}
 			for k := 0; k < 7; k++ {
 				for d := 1; d < c12Dims[k]; d++ {
 					e := a
 					e[k] = (a[k] + d) % c12Dims[k]
-					c.Do("matrix", c12MatrixIn{E: e, A: a, V: vv, Name: "Suite/one-off"})
+					par("matrix", c12MatrixIn{E: e, A: a, V: vv, Name: "Suite/one-off", Traced: (ai+v+k+d)%2 == 0})
 					c.E.Count("kind:matrix-single-deviation")
 				}
 			}
@@ -724,7 +783,7 @@ func runC12(c *gen.Ctx) error {
 			c12Perturb(r, &req, badVals)
 			reqs = append(reqs, req)
 		}
-		c.Do("checks", c12ChecksIn{Reqs: reqs})
+		par("checks", c12ChecksIn{Reqs: reqs, Traced: i%2 == 1})
 		c.E.Count("kind:checks-sequence")
 	}
 	// (i.d) the same sequences with the printer of the real process (internal.NewPrinter around
@@ -736,6 +795,9 @@ func runC12(c *gen.Ctx) error {
 	}
 	for i := 0; i < nErr; i++ {
 		batchNames := []string{c12OddName(r, i), c12OddName(r, i+1), gen.Pick(r, names)}
+		if i%5 == 4 { // names with ': ' inside, white space in front or at the end
+			batchNames[0] = c12HardNames[(i/5)%len(c12HardNames)]
+		}
 		n := r.Range(1, 4)
 		var reqs []c12Req
 		for k := 0; k < n; k++ {
@@ -758,13 +820,15 @@ func runC12(c *gen.Ctx) error {
 			}
 			reqs = append(reqs, req)
 		}
-		c.Do("checks", c12ChecksIn{Reqs: reqs, Stderr: true})
+		par("checks", c12ChecksIn{Reqs: reqs, Stderr: true, Traced: i%2 == 1})
 		c.E.Count("kind:checks-sequence-stderr")
 	}
+	flush()
 	// (i.e) overlapping requests on one handler instance, and whole stderr streams with lines of
 	// any length read by the real runner (c12overlap.go)
 	c12OverlapGen(c)
 	c12StreamGen(c)
+	c12ClientFbGen(c)
 	// (iii) the real reference server as createServer builds it (c12real.go)
 	c12RealGen(c)
 	c12RealOverlapGen(c)
@@ -782,6 +846,15 @@ var c12OddNames = []string{
 	"quote\"d", "back\\slash", "\\n", "{brace}", "$dollar ${x}", "`tick`", "<a&b>", "tab\tinside", "two  spaces", "é%ü", "名前/%s", "#1", "*", "?", "[x]",
 	"referenceserver", "referenceserver/x", "-", "0", strings.Repeat("long%", 40),
 }
+
+// c12Attributable: the runner's reading of a stderr line ("trim; split at the first ': '") gives
+// back this test case name.
+func c12Attributable(name string) bool {
+	return !strings.Contains(name, ": ") && !strings.ContainsAny(name, "\n\r") && strings.TrimLeft(name, " \t\n\v\f\r") == name
+}
+
+// c12HardNames: names with the separator inside, white space in front or at the end.
+var c12HardNames = []string{"a: b", "Suite: case/1", "x: y: z", ": ", "a: ", " leading", "\tleading tab", "trailing ", "trailing  ", "both ", "trail%s ", "100% ", "q: 100%d", "é: ü ", "ends with colon:", "colon:: twice"}
 
 func c12OddName(r *gen.Rand, i int) string {
 	if i%3 == 0 {
